@@ -5,6 +5,8 @@ Property theorems.  Spec level (any element type, any strict weak order, all inp
   * `partition_nested`, `partition_unique_at_rank`, `partition_exists_for_every_rank`
                                              — exactly one split vector per rank, monotone in the rank
   * `checker_sound`, `checker_complete`      — the O(m²) boundary checker decides the spec
+  * `selection_characterised`                — from ANY (weak) partition: min right head = element at the rank,
+                                               Σ(o_i − lower_bound_i) = its offset among the equivalent elements
 Model level (transliteration `Model/C08Msp.lean` of the C++):
   * `certified_run_is_the_partition`         — a model run accepted by the checker returned THE partition
   * `partition_rank_total`                   — the `rank == N` shortcut
@@ -13,6 +15,7 @@ The all-inputs correctness of the halving refinement is OPEN (see the end of the
 import TlxVerif.Proofs.C08Spec
 import TlxVerif.Proofs.C08Checker
 import TlxVerif.Proofs.C08Exists
+import TlxVerif.Proofs.C08Select
 import TlxVerif.Model.C08Msp
 namespace TlxVerif.C08
 
@@ -46,6 +49,24 @@ theorem checker_sound {lt : α → α → Bool} (hlt : StrictWeak lt) {runs : Li
 theorem checker_complete {lt : α → α → Bool} {runs : List (List α)} {rank : Nat} {offs : List Nat}
     (h : IsPartition lt runs rank offs) : checkPartition lt runs rank offs = true :=
   checkPartition_complete h
+
+/-- **multisequence_selection, specification level**: whatever tie-breaking produced the split (`offs` need
+only be a weak partition: no left element greater than a right one), the minimum `mr` of the right heads is
+(equivalent to) the element at `rank` of the merged order — `#{x < mr} ≤ rank < #{x ≤ mr}` — and
+`Σ_i (o_i − lower_bound_i(mr))` is the rank of that position among the elements equivalent to `mr`. -/
+theorem selection_characterised {lt : α → α → Bool} (hlt : StrictWeak lt) {runs : List (List α)}
+    (hs : ∀ r ∈ runs, SortedRun lt r) {rank : Nat} {offs : List Nat} (hw : WeakPartition lt runs rank offs)
+    {j0 : Nat} {r0 : List α} {o0 : Nat} {mr : α} (hr0 : runs[j0]? = some r0) (ho0 : offs[j0]? = some o0)
+    (hmr : r0[o0]? = some mr)
+    (hmin : ∀ (j : Nat) (rj : List α) (oj : Nat) (w : α), runs[j]? = some rj → offs[j]? = some oj →
+      rj[oj]? = some w → lt w mr = false) :
+    IsSelection lt runs rank mr
+      (List.zipWith (fun r o => o - (r.takeWhile (fun x => lt x mr)).length) runs offs).sum :=
+  selection_from_partition hlt hs hw hr0 ho0 hmr hmin
+
+/-- every partition in the sense of `multisequence_partition` is a weak partition -/
+theorem partition_is_weak {lt : α → α → Bool} (hlt : StrictWeak lt) {runs : List (List α)} {rank : Nat}
+    {offs : List Nat} (h : IsPartition lt runs rank offs) : WeakPartition lt runs rank offs := h.weak hlt
 
 /-- `<` on `Int` as a Boolean comparator is a strict weak order (non-vacuity of the hypotheses) -/
 theorem strictWeak_intLt : StrictWeak (fun a b : Int => decide (a < b)) :=
@@ -114,8 +135,9 @@ theorem ends_are_partition_at_total (lt : α → α → Bool) (runs : List (List
 --   (translation validation); C06/C07 take `IsPartition` as hypothesis.
 -- OPEN: msp_bounds — `0 ≤ a[i] ≤ len_i`, no out-of-range read and no `top()` of an empty queue for all inputs
 --   (the model answers `model-failure` where the C++ would be undefined): not proved, never observed.
--- OPEN: selection_correct — `selectionM` returns a value equivalent to the rank-th element and its offset among
---   the equivalent elements, for all inputs: checked by the harness oracle (4 M exhaustive cases) and the
---   correspondence only.
+-- OPEN: selection_correct — `selectionM` itself returns an `IsSelection` for all inputs: follows from
+--   `selection_characterised` once `refine` is known to end in a weak partition with `a[i] = min(b[i], len_i)`
+--   (same open loop invariant as msp_correct); until then checked by the harness oracle (4 M exhaustive
+--   cases) and the correspondence.
 
 end TlxVerif.C08
